@@ -67,6 +67,8 @@ class BaseEngine(abc.ABC):
         self.samples = None
         #: Dict[Any, List]: the measurement results as a dictionary with measured modes as keys
         self.samples_dict = None
+        #: Dict[int, Any]: latest measurement result of each subsystem, handed over to the next program segment
+        self._measured_vals = {}
 
         if isinstance(backend, str):
             self.backend_name = backend
@@ -134,6 +136,7 @@ class BaseEngine(abc.ABC):
             p._clear_regrefs()
         self.run_progs.clear()
         self.samples = None
+        self._measured_vals = {}
 
     def print_applied(self, print_fn=print):
         """Print all the Programs run since the backend was initialized.
@@ -296,14 +299,17 @@ class BaseEngine(abc.ABC):
                 # Copy the latest measured values in the RegRefs of p.
                 # We cannot copy from prev directly because it could be used in more than one
                 # engine.
-                for k, v in enumerate(self.samples):
-                    p.reg_refs[k].val = v
+                for k, r in p.reg_refs.items():
+                    r.val = self._measured_vals.get(k)
 
             # bind free parameters to their values
             p.bind_params(args)
             p.lock()
 
             _, self.samples, self.samples_dict = self._run_program(p, **kwargs)
+            # latest measurement result of each subsystem (self.samples only holds the subsystems
+            # measured by p, indexed by shot)
+            self._measured_vals = {k: r.val for k, r in p.reg_refs.items()}
             self.run_progs.append(p)
 
             if isinstance(p, TDMProgram) and received_rolled:
